@@ -205,7 +205,8 @@ def scanRegex (inp : Input) (s : LState) : LexM := do
   let (hasFlags, s6) := acceptAll inp isRegexFlag s5
   if hasFlags then
     let (fl, s7) := newToken .eof s6
-    pure ({ t with pre := "(?" ++ bytesToString inp fl.lo fl.hi ++ ")" }, s7)
+    -- an empty pattern stays empty (the parser rejects it): //i is not the pattern (?i)
+    pure ({ t with pre := if t.lo == t.hi then "" else "(?" ++ bytesToString inp fl.lo fl.hi ++ ")" }, s7)
   else pure (t, s6)
 
 /-- lexer.go scanString -/
